@@ -21,6 +21,7 @@ type oracles struct {
 	model  bool // C02: publication exactly when observed && quorum, per the reference model
 	gossip bool // C03: unacceptable observations leave no trace, acceptable ones are recorded
 	live   bool // C13: after the script a fresh message still reaches quorum
+	adv    bool // C13: adversarial ops allowed (injection before the first set, arbitrary injected VAAs)
 	pfx    string
 }
 
@@ -147,6 +148,7 @@ func (r *runner) publishedDigests() []string {
 
 func runProcR(c procCase, o oracles, reqCap int) (*runner, *vh.Violation, vh.Outcome) {
 	e := newEnv(c, reqCap)
+	defer e.wipe()
 	r := &runner{e: e, o: o, model: map[string]*digestModel{}, obsIdx: map[string]map[uint32]bool{}, labels: map[string]bool{}, actualPublished: map[string]bool{}}
 	for _, x := range c.Ops {
 		if x.K == "cleanup" {
@@ -202,12 +204,19 @@ func (r *runner) step(i int, x op) *vh.Violation {
 			}
 			e.p.handleMessage(e.ctx, m.pub)
 		} else {
-			if e.cur == nil || m.gov && false {
+			if e.cur == nil && !r.o.adv {
 				// injection before the first guardian set is exercised by C13 only
 				return nil
 			}
-			effective = true
-			v := &vaa.VAA{Version: 1, GuardianSetIndex: e.cur.Index, Timestamp: m.pub.Timestamp, Nonce: m.pub.Nonce, Sequence: m.pub.Sequence,
+			effective = e.cur != nil
+			gsi := uint32(x.B)
+			if e.cur != nil && !r.o.adv {
+				gsi = e.cur.Index
+			}
+			if e.cur == nil {
+				r.label("injection-before-first-set")
+			}
+			v := &vaa.VAA{Version: 1, GuardianSetIndex: gsi, Timestamp: m.pub.Timestamp, Nonce: m.pub.Nonce, Sequence: m.pub.Sequence,
 				ConsistencyLevel: m.pub.ConsistencyLevel, EmitterChain: m.pub.EmitterChain, TargetChain: m.pub.TargetChain, EmitterAddress: m.pub.EmitterAddress, Payload: m.pub.Payload}
 			e.p.handleInjection(e.ctx, v)
 		}
